@@ -38,6 +38,11 @@ theorem headOk_piece (b : Builder) (p : Piece) (next : List Char) (h : PieceOk b
     have := headOk_tokWord _ _ h1 x
     rwa [printWord_assignWord] at this
   | word w => exact headOk_tokWord w next h.1 x
+  | arrayAssign n ws =>
+    obtain ⟨_, h1, _⟩ := h
+    have := headOk_tokWord _ _ h1 ('(' :: (printArrayWords ws ++ ')' :: x))
+    rw [printWord_assignWord] at this
+    simpa [Piece.print, printArrayAssign, printWord] using this
   | redir fd op w =>
     cases fd with
     | none =>
@@ -65,20 +70,11 @@ theorem headOk_piece (b : Builder) (p : Piece) (next : List Char) (h : PieceOk b
 
 theorem headOk_simple (c : SimpleCommand) (tail : List Char) (h : SimpleOk c tail) :
     HeadOk (printSimple c ++ tail) := by
-  obtain ⟨as, ws, rs, rfl, hne, hok⟩ := h
-  rw [printSimple_pieces]
-  cases hp : simplePieces as ws rs with
-  | nil =>
-    have := foldl_simplePieces as ws rs
-    rw [hp] at this
-    simp at this
-    obtain ⟨a1, a2, a3⟩ := this
-    rcases hne with h | h | h
-    · exact absurd a1 h
-    · exact absurd (by simpa [mkSimple] using a2) h
-    · exact absurd a3 h
+  obtain ⟨ps, hps, hprint, _, hok⟩ := h
+  rw [hprint]
+  cases ps with
+  | nil => exact absurd rfl hps
   | cons p ps =>
-    rw [hp] at hok
     rw [printPieces_cons]
     exact headOk_piece _ p _ hok.1 _
 
@@ -239,7 +235,9 @@ structure FnNameOk (name : Word) (next : List Char) : Prop where
 
 theorem simpleOk_name (name : Word) (next : List Char) (h : FnNameOk name next) :
     SimpleOk ⟨[], [name], []⟩ next := by
-  refine ⟨[], [name], [], by simp [mkSimple], Or.inr (Or.inl (by simp)), ?_⟩
+  have hmk : (⟨[], [name], []⟩ : SimpleCommand) = mkSimple [] [name] [] := by simp [mkSimple]
+  rw [hmk]
+  refine simpleOk_of_mk [] [name] [] next (Or.inr (Or.inl (by simp))) ?_
   have hfk : firstWordIsKeyword (mkSimple [] [name] []) = false := by
     have := h.noKw
     simp only [isKeywordWord] at this
